@@ -34,6 +34,8 @@ PY
 }
 for spec in "wgsim C06" "plainsim C17" "mergesim C12" "rendersim C14" "puresim C13"; do
   set -- $spec; engine=$1; prop=$2
+  # ENGINES="mergesim puresim": only these
+  if [ -n "$ENGINES" ] && ! echo " $ENGINES " | grep -q " $engine "; then continue; fi
   n=$N; [ $engine = puresim ] && n=$((N/2))
   runcfg $engine $prop worker 1 1 $engine-a $n
   runcfg $engine $prop worker 4 4 $engine-b $n
